@@ -213,6 +213,125 @@ def yaml_numbers(text, key):
     return [m for m in re.findall(r"%s:\s*(-?\d+\.\d+)" % key, text)]
 
 
+# --------------------------------------------------------------------------
+# band paths with several segments, NAC on
+# --------------------------------------------------------------------------
+
+def multi_segment_paths():
+    X, Y, Z, A, G = [0.5, 0, 0], [0, 0.5, 0], [0, 0, 0.5], [0.5, 0, 0.5], [0, 0, 0]
+
+    def seg(a, b, n=3):
+        a, b = np.array(a, dtype=float), np.array(b, dtype=float)
+        return [list(a + (b - a) * t / (n - 1)) for t in range(n)]
+
+    return [seg(X, G), seg(G, Z), seg(Z, A), seg([0.25, 0.25, 0], [0.25, 0.5, 0.25]),
+            seg([0, -0.25, 0], [0, 0.25, 0]), seg(G, [0.5, 0.5, 0]), seg([0.5, 0.5, 0], G), seg(G, Y)]
+
+
+def build_nac_phonon(name, smat, method):
+    import phonopy
+
+    cell, cen = gen.make_cell(name)
+    ph = phonopy.Phonopy(cell, supercell_matrix=np.diag(smat), primitive_matrix="auto" if cen != "P" else "P", log_level=0)
+    ph.force_constants = gen.pair_fc(ph.supercell, 1.45 * nn_distance(ph.primitive))
+    nums = ph.primitive.numbers
+    zmin = min(nums)
+    z = np.array([np.diag([1.9, 1.9, 2.6]) * (1.0 if n_ == zmin else -1.0) for n_ in nums])
+    # neutrality for unequal species counts (e.g. rutile TiO2)
+    npos, nneg = sum(1 for n_ in nums if n_ == zmin), sum(1 for n_ in nums if n_ != zmin)
+    if nneg and npos:
+        for i, n_ in enumerate(nums):
+            if n_ != zmin:
+                z[i] *= float(npos) / nneg
+    ph.nac_params = {"born": z, "dielectric": np.diag([3.1, 3.1, 4.4]), "factor": 14.4, "method": method}
+    return ph
+
+
+def multi_segment_band(run, rng, thorough, lines, expect):
+    cells_aniso = ["wurtzite"] + (["rutile"] if thorough else [])
+    cells_cubic = ["nacl_prim", "zincblende_prim", "cscl"]
+    todo = [(rng.choice(cells_aniso), rng.choice(["wang", "gonze"]))]
+    todo.append((rng.choice(cells_cubic), "gonze" if todo[0][1] == "wang" else "wang"))
+    if thorough:
+        todo += [(c_, m_) for c_ in cells_aniso + cells_cubic for m_ in ("wang", "gonze")]
+    paths = multi_segment_paths()
+    for name, method in todo:
+        for build in ("omp", "ser"):
+            switch_build(build)
+            ph = build_nac_phonon(name, [2, 1, 1], method)
+            dmo = ph.dynamical_matrix
+            rec = np.linalg.inv(ph.primitive.cell)
+            fac = ph.unit_conversion_factor
+            through, dirs = [], []
+            for pth in paths:
+                p0, p1 = np.array(pth[0]), np.array(pth[-1])
+                through.append(bool(np.linalg.norm(np.cross(rec @ p0, rec @ p1)) < 1e-5))
+                dirs.append(p0 - p1)
+            req = "banddirs %d %s" % (len(paths), " ".join("%d %d" % (int(t), len(p_)) for t, p_ in zip(through, paths)))
+            info0 = dict(cell=name, smat=[2, 1, 1], nac=method, build=build, paths=paths)
+            results = {}
+            for e, c in ((True, False), (True, True), (False, False)):
+                ph.run_band_structure(paths, with_eigenvectors=e, is_band_connection=c)
+                d_ = ph.get_band_structure_dict()
+                results[(e, c)] = (d_["frequencies"], d_["eigenvectors"])
+            lines.append(req)
+            expect.append(("banddirs", (results, dirs, dmo, ph, fac), info0))
+            run.count("multi-segment band (NAC %s, %s, %s)" % (method, name, build))
+            # ---- the property on the real code: every band point equals run_qpoints at that q with the segment's direction
+            for (e, c), (freqs, evs) in results.items():
+                for k, pth in enumerate(paths):
+                    own = dirs[k] if through[k] else None
+                    for j, qpt in enumerate(pth):
+                        ph.run_qpoints([qpt], with_eigenvectors=True, with_dynamical_matrices=True, nac_q_direction=own)
+                        dq = ph.get_qpoints_dict()
+                        lam_ref = np.sort(_lam(dq["frequencies"][0], fac))
+                        lam_b = _lam(freqs[k][j], fac)
+                        info = dict(info0, segment=k, point=j, q=qpt, q_direction=None if own is None else own.tolist(),
+                                    with_eigenvectors=e, is_band_connection=c)
+                        run.case((name, method, build, "multiseg", e, c, k, j), nontrivial=bool(np.abs(np.array(qpt)).max() < 1e-9 and through[k]))
+                        run.count("band point vs run_qpoints", section="oracle")
+                        bad = not _close(np.sort(lam_b), lam_ref)
+                        what = "frequencies"
+                        if not bad and evs is not None:
+                            D = np.asarray(dq["dynamical_matrices"][0])
+                            M = np.asarray(evs[k][j])
+                            resid = np.abs(D @ M - M * lam_b[None, :]).max()
+                            if resid > 1e-7 * max(1.0, float(np.abs(D).max())):
+                                bad, what = True, "eigenvectors (residual %.3g against the dynamical matrix of run_qpoints)" % resid
+                        if bad:
+                            run.violation("BandStructure._solve_dm_on_path", "band-point-differs-from-run_qpoints",
+                                          "%s of a band-path point differ from run_qpoints at the same q with the segment's own q-direction" % what, info)
+    switch_build("omp")
+
+
+def check_banddirs(run, ans, payload, info):
+    """model says which direction every point of every segment is solved with; the implementation must equal the
+    NAC dynamical-matrix object run directly with that direction"""
+    results, dirs, dmo, ph, fac = payload
+    labels = [seg.split() for seg in ans.split(" ; ")]
+    paths = info["paths"]
+    if len(labels) != len(paths) or any(len(a) != len(b) for a, b in zip(labels, paths)):
+        run.broke("correspondence", "banddirs answer has the wrong shape", dict(answer=ans[:200]))
+        return
+    for k, pth in enumerate(paths):
+        for j, qpt in enumerate(pth):
+            lab = labels[k][j]
+            d = None if lab == "none" else dirs[int(lab[1:])]
+            dmo.run(np.array(qpt), q_direction=d)
+            D = np.array(dmo.dynamical_matrix)
+            lam_ref = np.linalg.eigvalsh(D)
+            for (e, c), (freqs, evs) in results.items():
+                lam_b = _lam(freqs[k][j], fac)
+                ok = _close(np.sort(lam_b), lam_ref)
+                if ok and evs is not None:
+                    M = np.asarray(evs[k][j])
+                    ok = np.abs(D @ M - M * lam_b[None, :]).max() <= 1e-7 * max(1.0, float(np.abs(D).max()))
+                run.count("band-direction rows", section="correspondence")
+                if not ok:
+                    run.broke("correspondence", "band path segment %d point %d: implementation is not the solution for the direction the model says (%s)" % (k, j, lab),
+                              dict(cell=info["cell"], nac=info["nac"], build=info["build"], q=qpt, with_eigenvectors=e, is_band_connection=c))
+
+
 def main(run):
     rng = run.rng
     thorough = run.tier == "thorough"
@@ -478,6 +597,11 @@ def main(run):
                     os.chdir(cwd)
     switch_build("omp")
 
+    # ---------------- multi-segment band paths with NAC (segments joined at Gamma, at other points, disjoint)
+    multi_expect = []
+    multi_lines = []
+    multi_segment_band(run, rng, thorough, multi_lines, multi_expect)
+
     # ---------------- direct tests of estimate_band_connection on structured overlaps (exact zeros)
     import phonopy.phonon.band_structure as BS
     nprobe = 200 if thorough else 60
@@ -536,6 +660,9 @@ def main(run):
     for k, x, s_, info in round_checks:
         lines.append("round %d %s" % (k, qx(x)))
         expect.append(("round", (k, x, s_), info))
+    for l_, e_ in zip(multi_lines, multi_expect):
+        lines.append(l_)
+        expect.append(e_)
     out = common.lean_run_driver("C14", lines)
     if len(out) != len(lines):
         run.broke("correspondence", "driver answered %d lines for %d requests" % (len(out), len(lines)))
@@ -543,6 +670,9 @@ def main(run):
         run.count(kind, section="correspondence")
         if ans == "bad-op":
             run.broke("correspondence", "model rejected request", dict(request=req[:200]))
+            continue
+        if kind == "banddirs":
+            check_banddirs(run, ans.strip(), got, info)
             continue
         if kind in ("row", "gamma"):
             if ans.strip() != got:
